@@ -2,7 +2,6 @@ package types
 
 import (
 	errorsmod "cosmossdk.io/errors"
-	sdkmath "cosmossdk.io/math"
 	keytypes "github.com/ExocoreNetwork/exocore/types/keys"
 	"github.com/ExocoreNetwork/exocore/utils"
 	assetstypes "github.com/ExocoreNetwork/exocore/x/assets/types"
@@ -394,10 +393,12 @@ func (gs GenesisState) ValidateSlashStates(operators, avs map[string]struct{}) e
 		}
 		// validate the slashing record regarding undelegation
 		SlashFromUndelegationVal := func(_ int, slashFromUndelegation SlashFromUndelegation) error {
-			if slashFromUndelegation.Amount.IsNil() || slashFromUndelegation.Amount.LTE(sdkmath.NewInt(0)) {
+			// the keeper records the truncated amount, which is zero for a small enough
+			// proportion or undelegation
+			if slashFromUndelegation.Amount.IsNil() || slashFromUndelegation.Amount.IsNegative() {
 				return errorsmod.Wrapf(
 					ErrInvalidGenesisData,
-					"invalid slashing amount from the undelegation, it's nil, zero, or negative: %+v",
+					"invalid slashing amount from the undelegation, it's nil or negative: %+v",
 					slash,
 				)
 			}
@@ -413,10 +414,12 @@ func (gs GenesisState) ValidateSlashStates(operators, avs map[string]struct{}) e
 		}
 		// validate the slashing record regarding assets pool
 		SlashFromAssetsPoolVal := func(_ int, slashFromAssetsPool SlashFromAssetsPool) error {
-			if slashFromAssetsPool.Amount.IsNil() || slashFromAssetsPool.Amount.LTE(sdkmath.NewInt(0)) {
+			// the keeper records every pool of the operator with the truncated amount, which
+			// is zero for a small enough proportion or pool
+			if slashFromAssetsPool.Amount.IsNil() || slashFromAssetsPool.Amount.IsNegative() {
 				return errorsmod.Wrapf(
 					ErrInvalidGenesisData,
-					"invalid slashing amount from the assets pool, it's nil, zero, or negative: %+v",
+					"invalid slashing amount from the assets pool, it's nil or negative: %+v",
 					slash,
 				)
 			}
